@@ -63,3 +63,53 @@ Definition unpack_sprite (bpp : Z) (arr : list Z) : matrix :=
 (* a sprite as GET produces it: h rows of w cells below 2^bpp *)
 Definition sprite_ok (bpp : Z) (s : matrix) (w h : Z) : Prop :=
   zlen s = h /\ Forall (fun r => zlen r = w /\ Forall (fun p => 0 <= p < 2 ^ bpp) r) s.
+
+(* ---------- PlanedSpriteBuilder (EGA modes, n colour planes) and Tandy6SpriteBuilder *)
+
+(* plane p of a row: (sprite >> p), which pack_bytes then masks with 1 *)
+Definition plane_bits (p : nat) (row : list Z) : list Z :=
+  map (fun v => Z.land (Z.shiftr v (Z.of_nat p)) 1) row.
+
+(* the planes of one sprite row, plane 0 first: rows are interlaced row by row *)
+Definition row_planes (n : nat) (row : list Z) : list (list Z) := map (fun p => plane_bits p row) (seq 0 n).
+
+Definition pack_planed (n : nat) (s : matrix) : list Z :=
+  le_encode 2 (sprite_w s) ++ le_encode 2 (zlen s) ++
+  concat (map (fun row => concat (map (pack_row 1) (row_planes n row))) s).
+
+(* elementwise OR of rows (equal lengths in every use) *)
+Fixpoint lor_rows (a b : list Z) : list Z :=
+  match a, b with
+  | [], _ => b
+  | _, [] => a
+  | x :: a', y :: b' => Z.lor x y :: lor_rows a' b'
+  end.
+
+(* reduce(ior, (plane_p << p for p ..)) for the planes of one row; << is masked to a byte *)
+Fixpoint or_planes (p : Z) (planes : list (list Z)) : list Z :=
+  match planes with
+  | [] => []
+  | r :: rest => lor_rows (map (fun b => Z.land (Z.shiftl b p) 255) r) (or_planes (p + 1) rest)
+  end.
+
+Definition unpack_planed (n : nat) (arr : list Z) : matrix :=
+  let width := le_decode (firstn 2 arr) in
+  let height := le_decode (firstn 2 (skipn 2 arr)) in
+  let row_bytes := (width + 7) / 8 in
+  let packed := firstn (Z.to_nat (height * Z.of_nat n * row_bytes)) (skipn 4 arr) in
+  let nrows := height * Z.of_nat n in
+  if (zlen packed =? 0) || (nrows =? 0) then []
+  else
+    let w := zlen packed / nrows in
+    if w =? 0 then []
+    else
+      let allplanes := map (fun r => firstn (Z.to_nat width) (unpack_row 1 r))
+                           (chunks (length packed) (Z.to_nat w) packed) in
+      map (or_planes 0) (chunks (length allplanes) n allplanes).
+
+(* Tandy SCREEN 6: the size record holds half the width *)
+Definition pack_tandy6 (s : matrix) : list Z :=
+  le_encode 2 (sprite_w s / 2) ++ skipn 2 (pack_planed 2 s).
+
+Definition unpack_tandy6 (arr : list Z) : matrix :=
+  unpack_planed 2 (le_encode 2 (le_decode (firstn 2 arr) * 2) ++ skipn 2 arr).
